@@ -22,7 +22,7 @@ import re
 import time
 
 from . import box as boxmod
-from . import common, gen
+from . import common, corpus, gen
 
 PROP = "C21"
 LEVEL = "exploration"
@@ -318,7 +318,14 @@ def make_program(rnd):
     if r < 0.30:
         files, label = comptime_agg_program(rnd)
         return files, "main.capy", label, False
-    if r < 0.45:
+    if r < 0.40:
+        # the capy sources inside the repository's own test suites: small programs, one per
+        # diagnostic kind the type checker knows, many of them invalid on purpose
+        snips = corpus.snippets()
+        if snips:
+            label, files, uses_core = rnd.choice(snips)
+            return dict(files), "main.capy", "corpus:" + label.split("/")[-1], uses_core
+    if r < 0.52:
         files, label = data_program(rnd)
         return files, "main.capy", label, True
     prog = gen.generate(rnd)
